@@ -369,15 +369,28 @@ type solveOpts struct {
 	par     int
 }
 
-func solveUnit(r *UnitResult, opts solveOpts) {
-	e := r.engine
+func solveUnit(r *UnitResult, opts solveOpts) { solveUnits([]*UnitResult{r}, opts) }
+
+// solveUnits discharges the obligations of all units through one worker pool.
+func solveUnits(rs []*UnitResult, opts solveOpts) {
 	var wg sync.WaitGroup
 	sem := make(chan struct{}, opts.par)
-	for _, o := range r.Obligs {
-		o := o
-		if o.Status != "" {
-			continue
+	type job struct {
+		e *Engine
+		o *Oblig
+	}
+	var jobs []job
+	for _, r := range rs {
+		for _, o := range r.Obligs {
+			if o.Status == "" {
+				jobs = append(jobs, job{r.engine, o})
+			}
 		}
+	}
+	// advisory overflow obligations last: they are the ones that tend to run into the timeout
+	sort.SliceStable(jobs, func(i, j int) bool { return jobs[i].o.Kind != "ovf" && jobs[j].o.Kind == "ovf" })
+	for _, j := range jobs {
+		o, e := j.o, j.e
 		wg.Add(1)
 		sem <- struct{}{}
 		go func() {
@@ -386,6 +399,9 @@ func solveUnit(r *UnitResult, opts solveOpts) {
 			q := e.buildQuery(o, int(opts.timeout.Milliseconds()))
 			o.Query = filepath.Join(opts.workdir, sanitize(o.Name)+".smt2")
 			to := opts.timeout
+			if o.Kind == "ovf" && to > 4*time.Second {
+				to = 4 * time.Second // advisory only: do not spend the full budget on them
+			}
 			if o.Canary {
 				to = 3 * time.Second
 				_ = os.MkdirAll(opts.workdir, 0o755)
